@@ -77,6 +77,13 @@ pub fn run(engine: &str, prop: &str, path: &str, v: &Value) -> i32 {
             let probes: Vec<&str> = if fmt == Format::Apx { vec!["a", "b", "a1", "_", "c", "1a", "", "arg"] } else { vec!["0", "1", "2", "3", "4", "-1", "x", ""] };
             verdict(prop, path, twice(&|| check_input(fmt, &bytes, &probes).err().map(|(w, m)| format!("[{}] {}", w, m))))
         }
+        "check_cmd" => {
+            use crate::checks::c13::{check_cmd_one, Format};
+            let bytes: Vec<u8> = case["bytes"].as_array().unwrap().iter().map(|b| b.as_u64().unwrap() as u8).collect();
+            let fmt = if case["format"].as_str() == Some("apx") { Format::Apx } else { Format::Iccma };
+            println!("case: `crustabri check` on the {} file {:?}", fmt.name(), String::from_utf8_lossy(&bytes));
+            verdict(prop, path, twice(&|| check_cmd_one(fmt, &bytes, 0).err().map(|(w, m)| format!("[{}] {}", w, m))))
+        }
         "encoding" => {
             use crate::checks::c10::{check_one, check_one_pres, make, ALL_ENCS};
             let g = Graph::from_json(&case["graph"]);
